@@ -99,7 +99,7 @@ def rule_paths(env, shared):
             entry_held = False
             h0 = T.held(b, sa, 0)
             # a function whose entry is held: continuation closures and helpers only called from held sites
-            if h0[0] and T.admission_fact(ctx, 0) is None:
+            if h0[0] and (T.admission_fact(ctx, 0) is None or any(T.is_admission(f) for f in (ctx.entry_facts or ()))):
                 entry_held = True
             # definition sites of the return value that hand the ticket to the caller (Some(ticket) / a boolean that is
             # true exactly for the admitted caller): block -> the value itself implies the end flag was seen false
